@@ -137,8 +137,14 @@ def run(ctx):
             for p in list(itertools.permutations(range(len(s["entries"]))))[1:]:
                 perms.append(permute_system(s, p))
     systems += perms
-    tasks = [{"fn": "sysimpl.run_verdict", "indict": U.render(s, style=rng.choice([0, 1, 2]), rng=random.Random(k)), "api_timeout": 12, "timeout": 40}
-             for k, s in enumerate(systems)]
+    tasks = []
+    for k, s in enumerate(systems):
+        q = rng.random()
+        pars = None
+        if s["params"] and q < 0.5:
+            keep = list(s["params"]) if q < 0.2 else [p for p in s["params"] if rng.random() < 0.5]
+            pars = {p: repr(rng.choice([0.5, 1.5, 2.0])) for p in keep}
+        tasks.append({"fn": "sysimpl.run_verdict", "indict": U.render(s, style=rng.choice([0, 1, 2]), rng=random.Random(k), parameters=pars), "api_timeout": 12, "timeout": 40})
     gcases = [gen_graph_case(rng, rng.randint(1, 12)) for _ in range(600 if quick else 6000)]
     gchunks = [gcases[i::8] for i in range(8)]
     gtasks = [{"fn": "sysimpl.run_propagate", "cases": ch} for ch in gchunks]
